@@ -88,6 +88,46 @@ fn exec(ctx: &mut Ctx, arena: &Arena, h: &[u8], kinds: &[u16], part: &'static st
     }
     want.push(Rec { name: "iter.next", val: if refuse { Val::Panic } else { Val::E(0) } });
     check(ctx, part, "walk", &recs, &want);
+    // adapters the iterator type may override
+    if !refuse {
+        let wanto: Vec<usize> = items.iter().map(|i| 16 + i.off).collect();
+        let b0 = p as usize;
+        let r = ctx.call("iter adapters", || {
+            let off = |t: &multiboot2_common::DynSizedStructure<multiboot2_header::HeaderTagHeader>| t as *const _ as *const u8 as usize - b0;
+            let cnt = hd_.iter().count();
+            let last = hd_.iter().last().map(off);
+            let (lo, hi) = hd_.iter().size_hint();
+            let nths: Vec<Option<usize>> = (0..=wanto.len().min(6) + 1).map(|k| hd_.iter().nth(k).map(off)).collect();
+            let skips: Vec<Option<usize>> = (0..=wanto.len().min(6) + 1).map(|k| hd_.iter().skip(k).next().map(off)).collect();
+            let mut a = hd_.iter();
+            let first = a.next().map(off);
+            let c = a.clone();
+            let ra: Vec<usize> = a.by_ref().map(off).collect();
+            let rc: Vec<usize> = c.map(off).collect();
+            let after = a.next().is_some();
+            (cnt, last, lo, hi, nths, skips, first, ra, rc, after)
+        });
+        match r {
+            Out::Panic => ctx.violation(&format!("c11/{}/adapters/spurious-panic", part), || "count/last/size_hint/nth/skip/clone panicked on a well-formed header".into()),
+            Out::Val((cnt, last, lo, hi, nths, skips, first, ra, rc, after)) => {
+                let n = wanto.len();
+                let mut bad = vec![];
+                if cnt != n { bad.push(format!("count() = {}", cnt)); }
+                if last != wanto.last().copied() { bad.push(format!("last() = {:?}", last)); }
+                if lo > n || hi.is_some_and(|h| h < n) { bad.push(format!("size_hint() = ({}, {:?})", lo, hi)); }
+                let ws: Vec<Option<usize>> = (0..=n.min(6) + 1).map(|k| wanto.get(k).copied()).collect();
+                if nths != ws { bad.push(format!("nth(k) = {:?}", nths)); }
+                if skips != ws { bad.push(format!("skip(k).next() = {:?}", skips)); }
+                let mut all = vec![];
+                all.extend(first);
+                all.extend(ra.iter().copied());
+                if all != wanto || (first.is_some() && ra != rc) || after { bad.push(format!("next + rest = {:?}, clone after first = {:?}, next after None = {}", all, rc, after)); }
+                if !bad.is_empty() {
+                    ctx.violation(&format!("c11/{}/adapters", part), || format!("reference walk has {} tags at offsets {:?}; {}", n, wanto.iter().take(12).collect::<Vec<_>>(), bad.join("; ")));
+                }
+            }
+        }
+    }
     // typed getters
     for &k in kinds {
         let recs = {
@@ -180,6 +220,39 @@ fn run(ctx: &mut Ctx) {
                 ctx.state(hash::hash_bytes(&h));
                 ctx.nontrivial();
                 exec(ctx, &arena, &h, &getters, "pairs");
+            });
+        }
+    }
+    // nested images: a complete tag image inside the request list of an information-request tag is not a tag
+    ctx.bound("nested_images", "per kind K (not the information request itself): an information-request tag whose request words are a complete image of kind K (and one whose words are an end-tag image), before / after the real tag or without it; all 10 getters and the walk");
+    for kind in (0..=10u16).filter(|k| *k != hd::INFO_REQ) {
+        for arrangement in 0..3 {
+            let inner = hd::sample(kind, 2, 2);
+            let mut nest = vec![0u8; 8];
+            nest.extend_from_slice(&inner);
+            while nest.len() % 4 != 0 {
+                nest.push(0);
+            }
+            wr16(&mut nest, 0, hd::INFO_REQ);
+            wr16(&mut nest, 2, 0);
+            let nl = nest.len() as u32;
+            wr32(&mut nest, 4, nl);
+            while nest.len() % 8 != 0 {
+                nest.push(0xF7);
+            }
+            let real = hd::sample(kind, 1, 1);
+            let mut tags = match arrangement {
+                0 => vec![nest, real],
+                1 => vec![real, nest],
+                _ => vec![nest],
+            };
+            tags.push(hd::end_tag());
+            let h = hd::header(0, &tags, 0xF7);
+            let describe = || J::obj().set("part", "nested_images").set("kind", hd::kind_name(kind)).set("arrangement", ["nest, real", "real, nest", "nest only"][arrangement]).set("header", J::hex(&h));
+            ctx.leaf(describe, |ctx| {
+                ctx.state(hash::hash_bytes(&h));
+                ctx.nontrivial();
+                exec(ctx, &arena, &h, &getters, "nested_images");
             });
         }
     }
